@@ -143,6 +143,7 @@ SCENARIOS = {
     "raise_plain": {(1, "step", 2): {"kind": "raise", "exc": "ValueError", "msg": "boom"}},
     "raise_percent": {(0, "step", 1): {"kind": "raise", "exc": "RuntimeError", "msg": "rate 100% exceeded %s"}},
     "raise_in_reset": {(1, "reset", 1): {"kind": "raise", "exc": "KeyError", "msg": "k"}},
+    "raise_two_arg_class": {(0, "step", 2): {"kind": "raise", "exc": "PairFault", "msg": "boom"}},
     "die_in_step": {(1, "step", 2): {"kind": "die"}},
     "die_in_reset": {(0, "reset", 1): {"kind": "die"}},
     "short_sleep": {(0, "step", 1): {"kind": "sleep", "d": 0.2}},
